@@ -36,8 +36,16 @@ func vBystanderServed(r *router, b *vClient) {
 	vAssert("bystander-still-served", ok)
 }
 
-func vC04Setup() (*router, *vClient, *vClient) {
-	r := vNewRouter(&Config{RealmConfigs: []*RealmConfig{{URI: "realm1", AnonymousAuth: true, AllowDisclose: vBool("allowDisclose"), EnableMetaKill: true, EnableMetaModify: true}}})
+func vC04Setup() (*router, *vClient, *vClient) { return vC04SetupHist(false) }
+
+// with hist, b.topic is configured with event history (the broker builds one
+// more event, for no subscriber in particular)
+func vC04SetupHist(hist bool) (*router, *vClient, *vClient) {
+	rc := &RealmConfig{URI: "realm1", AnonymousAuth: true, AllowDisclose: vBool("allowDisclose"), EnableMetaKill: true, EnableMetaModify: true}
+	if hist {
+		rc.TopicEventHistoryConfigs = []*TopicEventHistoryConfig{{Topic: "b.topic", MatchPolicy: wamp.MatchExact, Limit: 2}}
+	}
+	r := vNewRouter(&Config{RealmConfigs: []*RealmConfig{rc}})
 	// the hostile session announces everything, roles without any feature, or
 	// only the pub/sub roles - and uses whatever it likes afterwards
 	var aHello wamp.Dict
@@ -58,7 +66,7 @@ func vC04Setup() (*router, *vClient, *vClient) {
 }
 
 func Harness_C04_HostilePublish() {
-	r, a, b := vC04Setup()
+	r, a, b := vC04SetupHist(vBool("event-history-on-the-topic"))
 	keys := []vKey{{"acknowledge", nil}, {"exclude_me", nil}, {"disclose_me", nil}, {"exclude", nil}, {"eligible", nil},
 		{"exclude_authid", nil}, {"eligible_authrole", nil}, {"ppt_scheme", nil}, {"ppt_serializer", vPPT}, {"ppt_cipher", vPPT}, {"ppt_keyid", vPPT}}
 	a.send(&wamp.Publish{Request: 5, Topic: "b.topic", Options: vHostileDict("pub", keys), Arguments: wamp.List{1}})
